@@ -31,6 +31,7 @@ type env struct {
 	drv   *lib.Driver
 	fdrv  *lib.Driver
 	fixed bool
+	mig   migVariant
 	f     lib.Flags
 }
 
@@ -61,6 +62,14 @@ func main() {
 	}
 	res.Note("prune variant of the code under test: %s", note)
 	res.SetExtra("prune_variant", map[bool]string{false: "orig (range deletes after all hash-keyed batches)", true: "fixed (range deletes inside every batch)"}[fixed])
+
+	mig, mnote, err := probeMigration()
+	if err != nil {
+		res.Note("migration probe: %v", err)
+		lib.Finish(f, res)
+	}
+	res.Note("history-pruner migration variant of the code under test: %s", mnote)
+	res.SetExtra("migration_variant", mnote)
 
 	var jobs []job
 	if f.Replay != "" {
@@ -113,7 +122,7 @@ func main() {
 				return
 			}
 			defer fdrv.Close()
-			e := &env{res: res, drv: drv, fdrv: fdrv, fixed: fixed, f: f}
+			e := &env{res: res, drv: drv, fdrv: fdrv, fixed: fixed, mig: mig, f: f}
 			for j := range ch {
 				perr, panicked, stack := lib.Try(func() error { j.run(e); return nil })
 				if panicked {
